@@ -352,6 +352,18 @@ def _p_rich_xy(c):
         _ = r.x if c.get('first', 'x') == 'x' else r.y
         m, n = c['shape2']
         r.data = _marked((m, n))
+    elif hist == 'replace_other_after_polar_read':
+        _ = r.r                                     # fills x, y, r, t
+        m, n = c['shape2']
+        r.data = _marked((m, n))
+        rr = np.asarray(r.r)
+        if rr.shape != (m, n) or rr[m // 2, n // 2] != 0:
+            return f'r has shape {rr.shape} beside data of shape {(m, n)} / is not zero on the origin sample'
+    elif hist == 'assign_then_replace_other':
+        # user-assigned coordinates describe the array they were assigned beside; data of another shape gets fresh ones
+        r.x, r.y = np.meshgrid(np.arange(n) * 1.0, np.arange(m) * 1.0)
+        m, n = c['shape2']
+        r.data = _marked((m, n))
     x, y = (r.x, r.y) if c.get('first', 'x') == 'x' else tuple(reversed((r.y, r.x)))
     dx = c['dx']
     if x.shape != (m, n) or y.shape != (m, n):
@@ -843,7 +855,9 @@ def origin_inventory(repo):
     return sorted(sites)
 
 
-# ---- known finding: stale RichData coordinates after .data was replaced by another shape ------------------------------
+# ---- former known finding richdata-stale-xy (repaired).  The witness is kept only so that the shared KNOWN_FINDINGS.txt line
+# still resolves until the integrator turns it into `fixed:`; NOTHING is filtered any more: the history "read x, replace .data
+# by another shape, read x / y / slices()" is an ordinary checked case, so a regression is a VIOLATION.
 def _stale_witness():
     C.import_prysm()
     c = {'shape': [4, 7], 'shape2': [6, 9], 'dx': 0.5, 'history': 'replace_other_after_read'}
@@ -854,11 +868,6 @@ def _stale_witness():
 
 
 KNOWN = {'richdata-stale-xy': {'witness': _stale_witness}}
-
-
-def _is_known(item, c):
-    return item in ('richdata_xy', 'slices') and c.get('history') == 'replace_other_after_read' \
-        and list(c.get('shape2', c['shape'])) != list(c['shape'])
 
 
 # =================================================================================================
@@ -872,13 +881,6 @@ def _run_pred(ctx, item, case, nontrivial=True, tag=None):
     except Exception as ex:
         detail = f'raised {type(ex).__name__}: {ex}'
     if detail is not None:
-        if _is_known(item, case):
-            # exactly the known finding: the same request on a FRESH object of the new shape holds, only the cache is stale
-            fresh = {k: v for k, v in case.items() if k not in ('history', 'shape2')}
-            fresh['shape'] = case['shape2']
-            if _try(item, fresh) is None:
-                ctx.filtered_known['richdata-stale-xy'] += 1
-                return False
         ctx.pred_fail(item, case, detail)
         return False
     return True
@@ -1059,7 +1061,8 @@ def correspondence(ctx):
         for first in ('x', 'y'):
             _run_pred(ctx, 'richdata_xy', {'shape': [m, n], 'dx': dx, 'first': first}, nontrivial=nt, tag=f'par{m % 2}{n % 2}')
         other_shape = [n + 1, m + 2]
-        for hist in ('replace_same_after_read', 'replace_other_before_read', 'replace_other_after_read'):
+        for hist in ('replace_same_after_read', 'replace_other_before_read', 'replace_other_after_read',
+                     'replace_other_after_polar_read', 'assign_then_replace_other'):
             _run_pred(ctx, 'richdata_xy', {'shape': [m, n], 'dx': dx, 'history': hist, 'shape2': other_shape,
                                            'first': 'xy'[(m + n) % 2]}, nontrivial=nt, tag=hist)
         for two in (True, False, None):
@@ -1435,6 +1438,8 @@ def search(ctx, hints):
                     return hit(item, case, d)
     for (m, n) in itertools.product(range(1, 10), repeat=2):
         cases = [('richdata_xy', {'shape': [m, n], 'dx': 1.0, 'first': 'x'}), ('richdata_xy', {'shape': [m, n], 'dx': 1.0, 'first': 'y'}),
+                 ('richdata_xy', {'shape': [m, n], 'dx': 1.0, 'history': 'replace_other_after_read', 'shape2': [n + 1, m + 2]}),
+                 ('slices', {'shape': [m, n], 'dx': 1.0, 'history': 'replace_other_after_read', 'shape2': [n + 1, m + 2]}),
                  ('slices', {'shape': [m, n], 'dx': 1.0, 'twosided': True}), ('slices', {'shape': [m, n], 'dx': 1.0, 'twosided': False}),
                  ('focus_origin', {'shape': [m, n]}), ('focus_origin', {'shape': [m, n], 'Q': '2'}), ('focus_origin', {'shape': [m, n], 'Q': '3/2'}),
                  ('centroid', {'shape': [m, n], 'pos': [m // 2, n // 2], 'dx': 1.0}),
@@ -1563,7 +1568,8 @@ MANIFEST_ENTRY = {
     'note': ('Trusted: Lean kernel + propext/Classical.choice/Quot.sound; the ast->Lean translator (tools/gen_c04.py: its reading '
              'of comprehensions, tuple unpacking, np.meshgrid(xy) and subscript forms is validated by executing model vs code on '
              'the exhaustive small domain each run); NumPy slicing / np.pad / np.roll / np.argmin and scipy.ndimage.center_of_mass '
-             'semantics; dx scaling is one floating-point product per sample (compared at 4 eps). Known finding '
-             'richdata-stale-xy: RichData caches x / y at first read and keeps them when .data is later replaced by an array of '
-             'another shape (filtered exactly; not repaired because Interferogram.crop reads the stale grid on purpose).'),
+             'semantics; dx scaling is one floating-point product per sample (compared at 4 eps). The former known finding '
+             'richdata-stale-xy is repaired (RichData.data is a property whose setter drops x / y / r / t cached for another '
+             'shape; Interferogram.crop cuts its grids before replacing the data) and is now an ordinary checked history: '
+             'read x, replace .data by another shape, read x / y / slices().'),
 }
